@@ -107,7 +107,7 @@ where
     B::V: HasKey<K>,
 {
     let k: Key<B::V, K> = key_from_bytes(key).expect("key to wrap parses");
-    let w: LocalKey<B> = key_from_bytes(with).expect("wrapping key parses");
+    let w = cached_key::<B::V, Local>(with).expect("wrapping key parses");
     let (kid, wid) = (rec.intern(key), rec.intern(with));
     rec.emit(json!({"ev":"WrapCall","be":B::NAME,"wkind":"pie","ver":B::VER,"ktype":ktype::<K>(),"key":kid,"with":wid}));
     spy_take();
@@ -123,7 +123,7 @@ where
     B::V: HasKey<K>,
 {
     let text = format!("{}{}", hdr_pie::<B, K>(), crate::b64::enc(blob));
-    let Ok(w) = key_from_bytes::<B::V, Local>(with) else { return };
+    let Ok(w) = cached_key::<B::V, Local>(with) else { return };
     let (bid, wid) = (rec.intern(blob), rec.intern(with));
     st.unwraps += 1;
     let r = guard(|| PieWrappedKey::<B::V, K>::from_str(&text)?.unwrap(&w).map(|k| key_bytes(&k)));
@@ -247,7 +247,7 @@ where
 // ---------------------------------------------------------------- PKE
 pub fn pke_seal<B: Backend>(rec: &mut Recorder, st: &mut Stats, key: &[u8], recipient_pub: &[u8], rng_fail: Option<(usize, bool)>) -> Option<(String, Vec<u8>)> {
     let k: LocalKey<B> = key_from_bytes(key).expect("local key parses");
-    let pk: PkePub<B> = key_from_bytes(recipient_pub).expect("recipient public key parses");
+    let pk = cached_key::<B::V, paseto_core::version::PkePublic>(recipient_pub).expect("recipient public key parses");
     let (kid, wid) = (rec.intern(key), rec.intern(recipient_pub));
     rec.emit(json!({"ev":"WrapCall","be":B::NAME,"wkind":"seal","ver":B::VER,"ktype":"local","key":kid,"with":wid}));
     spy_take();
@@ -267,7 +267,7 @@ pub fn pke_seal<B: Backend>(rec: &mut Recorder, st: &mut Stats, key: &[u8], reci
 
 pub fn pke_unseal<B: Backend>(rec: &mut Recorder, st: &mut Stats, blob: &[u8], recipient_sec: &[u8], note: Value) {
     let text = format!("{}{}", hdr_seal::<B>(), crate::b64::enc(blob));
-    let Ok(sk) = key_from_bytes::<B::V, paseto_core::version::PkeSecret>(recipient_sec) else { return };
+    let Ok(sk) = cached_key::<B::V, paseto_core::version::PkeSecret>(recipient_sec) else { return };
     let (bid, wid) = (rec.intern(blob), rec.intern(recipient_sec));
     st.unwraps += 1;
     let r = guard(|| SealedKey::<B::V>::from_str(&text)?.unseal(&sk).map(|k| key_bytes(&k)));
@@ -472,6 +472,8 @@ pub fn tamper<B: Backend>(rec: &mut Recorder, st: &mut Stats, cfg: &Cfg) {
         pie_unwrap::<B, Local>(rec, st, &blob, other_with, json!({"cls":"other-key"}));
         pie_unwrap::<B, Secret>(rec, st, &blob, with, json!({"cls":"relabel","to":"secret"}));
         relabel_all(rec, st, "pie", "local", &blob, with, &w);
+        // after all those rejections the honest blob still unwraps to the same key
+        pie_unwrap::<B, Local>(rec, st, &blob, with, json!({"cls":"honest-after-failures"}));
     }
     if let Some((_, blob)) = pie_wrap::<B, Secret>(rec, st, sk, with, None) {
         pie_unwrap::<B, Secret>(rec, st, &blob, with, json!({"cls":"identity"}));
@@ -532,6 +534,8 @@ pub fn tamper<B: Backend>(rec: &mut Recorder, st: &mut Stats, cfg: &Cfg) {
         }
         pw_unwrap::<B, Secret>(rec, st, &blob, pass, json!({"cls":"relabel","to":"secret"}));
         relabel_all(rec, st, "pw", "local", &blob, pass, &w);
+        // after all those rejections the honest blob still unwraps to the same key
+        pw_unwrap::<B, Local>(rec, st, &blob, pass, json!({"cls":"honest"}));
     }
     if let Some((_, blob)) = pw_wrap::<B, Secret>(rec, st, sk, pass, Some(cost), None) {
         pw_unwrap::<B, Secret>(rec, st, &blob, pass, json!({"cls":"identity"}));
@@ -581,6 +585,8 @@ pub fn tamper<B: Backend>(rec: &mut Recorder, st: &mut Stats, cfg: &Cfg) {
             pke_unseal::<B>(rec, st, &blob, &r1.secret, json!({"cls":"other-recipient"}));
         }
         relabel_all(rec, st, "seal", "local", &blob, &r0.secret, &w);
+        // after all those rejections the honest blob still unwraps to the same key
+        pke_unseal::<B>(rec, st, &blob, &r0.secret, json!({"cls":"honest-after-failures"}));
     }
 }
 
